@@ -584,20 +584,8 @@ func genSpec(r *hx.Rng) Spec {
 		}
 		s.VProps = append(s.VProps[:k], append([]VProp{np}, s.VProps[k:]...)...)
 	}
-	// uchar s/t texture coordinates are left out: vector2.DivByConstant multiplies by 1/255 where every other reader
-	// divides by 255, a difference of one unit in the last place for some bytes (float arithmetic, not layout)
-	si, ti := -1, -1
-	for i, p := range s.VProps {
-		if p.Name == "s" {
-			si = i
-		}
-		if p.Name == "t" {
-			ti = i
-		}
-	}
-	if si >= 0 && ti >= 0 && s.VProps[si].Ty == "uchar" && s.VProps[ti].Ty == "uchar" {
-		s.VProps[si].Ty, s.VProps[ti].Ty = "float", "float"
-	}
+	// uchar s/t texture coordinates are generated: vector2.DivByConstant multiplies by 1/255 where every other reader
+	// divides by 255; Check/C08.v translates the implementation's TexCoord values through Formats/PlyReadV2.v
 	// names are distinct (a file with two properties of one name describes nothing definite)
 	seen := map[string]bool{}
 	for i := range s.VProps {
@@ -875,6 +863,140 @@ func headerCase(s Spec) (hx.Case, bool) {
 func vp(ty, name string) VProp { return VProp{Ty: ty, Name: name, Alias: ty} }
 func f32(x float32) uint64     { return uint64(math.Float32bits(x)) }
 
+// ---------------- systematic streams (every run, independent of the seed) ----------------
+// S1 every recognised group with its members permuted and unrelated properties of other sizes between them;
+// S2 quads and triangles with repeated indices in every position; S3 lone / partial / type-mixed group members as
+// extra properties; S4 alpha before / between / after the colour channels with the same or another type.
+var sysGroups = []grp{
+	{[]string{"x", "y", "z"}, "float"}, {[]string{"px", "py", "pz"}, "float"}, {[]string{"posx", "posy", "posz"}, "double"},
+	{[]string{"nx", "ny", "nz"}, "float"}, {[]string{"normalx", "normaly", "normalz"}, "int"},
+	{[]string{"red", "green", "blue", "alpha"}, "uchar"}, {[]string{"r", "g", "b", "a"}, "uchar"},
+	{[]string{"diffuse_red", "diffuse_green", "diffuse_blue", "diffuse_alpha"}, "uchar"},
+	{[]string{"s", "t"}, "float"}, {[]string{"s", "t"}, "uchar"}, {[]string{"f_dc_0", "f_dc_1", "f_dc_2"}, "float"},
+	{[]string{"opacity"}, "float"}, {[]string{"scale_0", "scale_1", "scale_2"}, "double"},
+	{[]string{"rot_0", "rot_1", "rot_2", "rot_3"}, "float"},
+}
+
+func sysSpec(f string, props []VProp, r *hx.Rng, nv int) Spec {
+	s := Spec{Fmt: f, Sep: " ", FloatFmt: "g", VProps: props}
+	for i := range s.VProps {
+		if s.VProps[i].Alias == "" {
+			s.VProps[i].Alias = s.VProps[i].Ty
+		}
+	}
+	for i := 0; i < nv; i++ {
+		rec := make([]uint64, len(props))
+		for j, p := range props {
+			rec[j] = genWord(r, p.Ty, f == "ascii")
+		}
+		s.Verts = append(s.Verts, rec)
+	}
+	return s
+}
+
+func systematic() []Spec {
+	r := hx.NewRng(0xC08)
+	var out []Spec
+	fmts := []string{"ascii", "binary_little_endian", "binary_big_endian"}
+	for fi, f := range fmts {
+		// between the members: other sizes than the group's (a uchar only in binary files: in ascii files an unclaimed
+		// uchar is the known finding)
+		fill := []VProp{vp("double", "confidence"), vp("int", "label"), vp("double", "w0"), vp("int", "flags"), vp("float", "quality")}
+		if f != "ascii" {
+			fill[1] = vp("uchar", "label")
+			fill[3] = vp("uchar", "flags")
+		}
+		// S1
+		for gi, g := range sysGroups {
+			n := len(g.names)
+			order := make([]int, n)
+			for k := range order {
+				switch (gi + fi) % 3 {
+				case 0:
+					order[k] = n - 1 - k // reversed
+				case 1:
+					order[k] = (k + 1) % n // rotated
+				default:
+					order[k] = (k + n - 1) % n
+				}
+			}
+			props := []VProp{fill[0]}
+			for k, o := range order {
+				props = append(props, vp(g.natural, g.names[o]), fill[(k+1)%len(fill)])
+			}
+			// distinct filler names
+			seen := map[string]int{}
+			for i := range props {
+				if c := seen[props[i].Name]; c > 0 {
+					props[i].Name = fmt.Sprintf("%s_%d", props[i].Name, c)
+				}
+				seen[props[i].Name]++
+			}
+			out = append(out, sysSpec(f, props, r, 2))
+		}
+		// every byte value through the uchar Vector2 (s, t) reader and a uchar Vector3 reader
+		if f != "binary_big_endian" {
+			all := sysSpec(f, []VProp{vp("uchar", "t"), vp("float", "x"), vp("uchar", "nz"), vp("uchar", "s"), vp("uchar", "nx"), vp("uchar", "ny")}, r, 0)
+			for b := uint64(0); b < 256; b++ {
+				all.Verts = append(all.Verts, []uint64{255 - b, uint64(math.Float32bits(float32(b))), b, b, (b * 7) % 256, (b * 13) % 256})
+			}
+			out = append(out, all)
+		}
+		// S2
+		xyz := []VProp{vp("float", "x"), vp("float", "y"), vp("float", "z")}
+		s2 := sysSpec(f, xyz, r, 4)
+		s2.HasFace = true
+		s2.FProps = []FProp{{Ct: "uchar", Lt: "int", Name: "vertex_indices", CtAlias: "uchar", LtAlias: "int"}}
+		for _, q := range [][]uint64{{0, 1, 2, 2}, {0, 1, 2, 0}, {0, 1, 1, 3}, {0, 0, 2, 3}, {0, 1, 0, 3}, {0, 1, 2, 1}, {3, 3, 3, 3},
+			{1, 2, 3, 3}, {2, 2, 2, 1}, {0, 0, 1}, {1, 0, 0}, {2, 1, 2}, {3, 3, 3}, {0, 1, 2, 3}} {
+			s2.Faces = append(s2.Faces, [][]uint64{q})
+		}
+		out = append(out, s2)
+		// S3
+		lone := append(append([]VProp(nil), xyz...), vp("float", "t"), vp("float", "alpha"), vp("float", "nx"), vp("int", "b"),
+			vp("double", "rot_2"), vp("float", "scale_1"), vp("float", "pz"), vp("int", "f_dc_1"))
+		partial := append(append([]VProp(nil), xyz...), vp("float", "nx"), vp("float", "ny"), vp("int", "green"), vp("int", "red"),
+			vp("float", "rot_0"), vp("float", "rot_1"), vp("float", "rot_2"), vp("double", "scale_0"), vp("double", "scale_2"), vp("float", "s"))
+		mixed := []VProp{vp("float", "x"), vp("float", "y"), vp("double", "z"), vp("float", "nx"), vp("float", "ny"), vp("int", "nz"),
+			vp("float", "s"), vp("double", "t"), vp("int", "red"), vp("int", "green"), vp("float", "blue"), vp("double", "posz"),
+			vp("float", "posx"), vp("float", "posy")}
+		if f != "ascii" {
+			lone = append(lone, vp("uchar", "g"))
+			partial = append(partial, vp("uchar", "diffuse_blue"), vp("uchar", "diffuse_red"))
+			mixed = append(mixed, vp("uchar", "r"), vp("uchar", "g"), vp("float", "b"))
+		}
+		out = append(out, sysSpec(f, lone, r, 2), sysSpec(f, partial, r, 2), sysSpec(f, mixed, r, 2))
+		// S4
+		for si, names := range [][]string{{"red", "green", "blue", "alpha"}, {"r", "g", "b", "a"},
+			{"diffuse_red", "diffuse_green", "diffuse_blue", "diffuse_alpha"}} {
+			for pos := 0; pos < 4; pos++ {
+				for _, aty := range []string{"uchar", "float"} {
+					if si > 0 && !((pos == 0 && aty == "float") || (pos == 2 && aty == "uchar")) {
+						continue
+					}
+					var props []VProp
+					for k := 0; k < 3; k++ {
+						if k == pos {
+							props = append(props, vp(aty, names[3]))
+						}
+						props = append(props, vp("uchar", names[k]))
+					}
+					if pos == 3 {
+						props = append(props, vp(aty, names[3]))
+					}
+					if (pos+si)%2 == 0 {
+						props = append(xyz[:3:3], props...)
+					} else {
+						props = append(props, xyz...)
+					}
+					out = append(out, sysSpec(f, props, r, 2))
+				}
+			}
+		}
+	}
+	return out
+}
+
 func corner() []Spec {
 	xyz := []VProp{vp("float", "x"), vp("float", "y"), vp("float", "z")}
 	tri := FProp{Ct: "uchar", Lt: "int", Name: "vertex_indices", CtAlias: "uchar", LtAlias: "int"}
@@ -931,6 +1053,9 @@ func main() {
 	}
 	for _, s := range corner() {
 		run.Add(specCase(s, "corner"))
+	}
+	for _, s := range systematic() {
+		run.Add(specCase(s, "systematic"))
 	}
 	r := hx.NewRng(run.Seed)
 	for i := 0; i < run.N; i++ {
